@@ -15,7 +15,7 @@ F_asis  == [F_sound EXCEPT !.AnswerOwnerFilter = FALSE]
 
 (* one filter off each: the matching Containment clause must fail (non-vacuity of the model) *)
 F_noid       == [F_sound EXCEPT !.IdCheck = FALSE]
-F_noquestion == [F_sound EXCEPT !.QuestionCheck = FALSE]
+F_noquestion == [F_asis EXCEPT !.QuestionCheck = FALSE]   \* on the pinned code: stored under the victim name
 F_noglueb    == [F_sound EXCEPT !.GlueBailiwick = FALSE]
 F_nogluer    == [F_sound EXCEPT !.GlueRoutable = FALSE]
 F_nocoherent == [F_sound EXCEPT !.Coherent = FALSE]
